@@ -552,7 +552,7 @@ void getVariables(Nodes& ns, vpsc::Variables& vs) {
     vs.resize(ns.size());
     transform(ns.begin(),ns.end(),vs.begin(),GetVariable());
 }
-inline bool validTurn(EdgePoint* u, EdgePoint* v, EdgePoint* w) {
+bool validTurn(EdgePoint* u, EdgePoint* v, EdgePoint* w) {
     double cpuvw = crossProduct(u->posX(),u->posY(),v->posX(),v->posY(),
             w->posX(),w->posY());
     if(cpuvw==0) { // colinear: can safely remove v
